@@ -585,7 +585,7 @@ def shard(ctx: runner.Ctx) -> None:
     from hypothesis.stateful import run_state_machine_as_test
 
     fsaudit.install()
-    n_hist = ctx.n(240, 3_000)
+    n_hist = ctx.n(160, 3_000)
     steps = 12 if ctx.quick else 30
     refs = {}  # type: Dict[Any, Any]
     Machine = make_machine(ctx, refs, max_steps=3 * steps)
@@ -601,7 +601,7 @@ def shard(ctx: runner.Ctx) -> None:
             raise
         ctx.fail(f"machine-raised:{runner.exc_bucket(e)}", {"models": [], "steps": []}, runner.exc_text(e))
 
-    n_tr = ctx.n(480, 16_000)
+    n_tr = ctx.n(320, 16_000)
 
     def one(case: Dict[str, Any]) -> None:
         status, fails = transparency(case["text"], ctx.scratch)
